@@ -7,11 +7,13 @@ mod grid;
 mod helpers;
 mod refmath;
 mod hub;
+mod scn_config;
 mod scn_dist;
 mod scn_epoch;
 mod scn_incentive;
 mod scn_lair;
 mod scn_pair;
+mod scn_registry;
 mod scn_router;
 mod scn_trio;
 mod scn_vault;
@@ -56,6 +58,8 @@ fn main() {
                 "C15" => checks::c15::run(&tier, seed),
                 "C16" => checks::c16::run(&tier, seed),
                 "C17" => checks::c17::run(&tier, seed),
+                "C18" => checks::c18::run(&tier, seed),
+                "C19" => checks::c19::run(&tier, seed),
                 "C20" => checks::c20::run(&tier, seed),
                 _ => {
                     eprintln!("unknown property {id}");
@@ -86,6 +90,8 @@ fn main() {
                 "C15" => checks::c15::replay(&doc),
                 "C16" => checks::c16::replay(&doc),
                 "C17" => checks::c17::replay(&doc),
+                "C18" => checks::c18::replay(&doc),
+                "C19" => checks::c19::replay(&doc),
                 "C20" => checks::c20::replay(&doc),
                 _ => {
                     eprintln!("unknown property in replay file");
